@@ -84,9 +84,16 @@ class SharedCtx:
     the sibling property counts for this one, or None when that obligation is not a necessary condition of this property (it is
     then neither counted nor reported).  Everything else is the underlying Ctx."""
 
-    def __init__(self, ctx: "Ctx", rename: Any):
+    def __init__(self, ctx: "Ctx", rename: Any, select: Any = None):
         self.__dict__["_ctx"] = ctx
-        self.__dict__["_rename"] = rename
+        self.__dict__["_rename0"] = rename
+        self.__dict__["_select"] = select       # optional: which obligations of a rule are shared, by their description
+
+    def _rename(self, rule: str, what: Any = "") -> Any:
+        r = self._rename0(rule)
+        if r is not None and self._select is not None and not self._select(str(what)):
+            return None
+        return r
 
     def __getattr__(self, name: str) -> Any:
         return getattr(self._ctx, name)
@@ -95,18 +102,18 @@ class SharedCtx:
         setattr(self._ctx, name, value)
 
     def ok(self, rule: str, what: str, **detail: Any) -> None:
-        r = self._rename(rule)
+        r = self._rename(rule, what)
         if r is not None:
             self._ctx.ok(r, what, **detail)
 
     def fail(self, rule: str, where: str, construct: Any, message: str, witness: Any = None, path: Any = None, line: Optional[int] = None) -> None:
-        r = self._rename(rule)
+        r = self._rename(rule, message)
         if r is not None:
             self._ctx.fail(r, where, construct, message, witness, path, line)
 
     def check(self, cond: bool, rule: str, what: str, where: str, construct: Any, message: str = "", witness: Any = None,
               line: Optional[int] = None, **detail: Any) -> bool:
-        r = self._rename(rule)
+        r = self._rename(rule, what)
         if r is not None:
             return self._ctx.check(cond, r, what, where, construct, message, witness, line, **detail)
         return cond
